@@ -599,7 +599,11 @@ def step (s : DState) (line : String) : DState × List String :=
       | some r =>
         if name == "ordcmp" && (match impl.splitOn " " with | [d, e] => d != e | _ => true) then
           diff s "SPEC" s!"ordcmp {args}: declared order and byte order of the encodings differ: {impl}"
-        else if r != impl then diff s "MODEL" s!"{name} {args}: impl={impl} model={r}" else (s, [])
+        else if r != impl then
+          -- for the node16 routines the model IS the plain scalar scan over the occupied lanes (C10's own words)
+          if name == "search16" || name == "inspos16" then diff s "SPEC" s!"{name} {args}: impl={impl} scalar-scan={r}"
+          else diff s "MODEL" s!"{name} {args}: impl={impl} model={r}"
+        else (s, [])
     | _ => diff s "PROTO" s!"unknown command {cmd}"
   | _ => if line.isEmpty || line.startsWith "#" then (s, []) else diff s "PROTO" "no output separator"
 
